@@ -18,24 +18,52 @@ var filters = map[string]explore.Filter{
 	},
 }
 
+type jobSet struct {
+	quick, thorough   []Job
+	quickS, thoroughS int // wall-clock budgets (seconds)
+}
+
+func bs(b ...explore.Budget) []explore.Budget { return b }
+
+// jobTable lists the explorations of every property at both tiers.
+var jobTable = map[string]jobSet{
+	"C01": {
+		quick: []Job{
+			{Scenario: "uni/N=1/k=5", Budgets: bs(B(1, 1), B(0, 2)), Split: 1},
+			{Scenario: "uni/N=2/k=7", Budgets: bs(B(1, 1), B(0, 2)), Split: 1},
+			{Scenario: "bidi/N=2/k1=3/k2=3", Budgets: bs(B(1, 0), B(0, 2)), Split: 1},
+		},
+		thorough: []Job{
+			{Scenario: "uni/N=1/k=5", Budgets: bs(B(2, 1), B(1, 2), B(0, 3)), Split: 2},
+			{Scenario: "uni/N=2/k=7", Budgets: bs(B(2, 1), B(1, 2), B(0, 3)), Split: 2},
+			{Scenario: "uni/N=3/k=5", Budgets: bs(B(1, 1), B(0, 3)), Split: 2},
+			{Scenario: "bidi/N=2/k1=3/k2=3", Budgets: bs(B(1, 1), B(0, 3)), Split: 2},
+		},
+		quickS: 240, thoroughS: 1500,
+	},
+	"C12": {
+		quick: []Job{
+			{Scenario: "close/N=2/k=2/closers=2", Budgets: bs(B(2, 0)), Split: 1},
+			{Scenario: "closestall/N=1/closers=2", Budgets: bs(B(2, 0)), Split: 1},
+		},
+		thorough: []Job{
+			{Scenario: "close/N=2/k=2/closers=2", Budgets: bs(B(2, 0)), Split: 2},
+			{Scenario: "closestall/N=1/closers=2", Budgets: bs(B(2, 0)), Split: 2},
+			{Scenario: "closestall/N=2", Budgets: bs(B(2, 0)), Split: 2},
+		},
+		quickS: 240, thoroughS: 1500,
+	},
+}
+
 // jobsFor lists the explorations of a property at a tier and the wall-clock
 // budget (seconds) after which expansion stops (exit 0, exhaustive:false).
 func jobsFor(prop string, thorough bool) ([]Job, int) {
-	switch prop {
-	case "C01":
-		if !thorough {
-			return []Job{
-				{Scenario: "uni/N=1/k=5", Budgets: []explore.Budget{B(1, 1), B(0, 2)}, Split: 1},
-				{Scenario: "uni/N=2/k=7", Budgets: []explore.Budget{B(1, 1), B(0, 2)}, Split: 1},
-				{Scenario: "bidi/N=2/k1=3/k2=3", Budgets: []explore.Budget{B(1, 0), B(0, 2)}, Split: 1},
-			}, 240
-		}
-		return []Job{
-			{Scenario: "uni/N=1/k=5", Budgets: []explore.Budget{B(2, 1), B(1, 2), B(0, 3)}, Split: 2},
-			{Scenario: "uni/N=2/k=7", Budgets: []explore.Budget{B(2, 1), B(1, 2), B(0, 3)}, Split: 2},
-			{Scenario: "uni/N=3/k=5", Budgets: []explore.Budget{B(1, 1), B(0, 3)}, Split: 2},
-			{Scenario: "bidi/N=2/k1=3/k2=3", Budgets: []explore.Budget{B(1, 1), B(0, 3)}, Split: 2},
-		}, 1500
+	js, ok := jobTable[prop]
+	if !ok {
+		return nil, 0
 	}
-	return nil, 0
+	if thorough {
+		return js.thorough, js.thoroughS
+	}
+	return js.quick, js.quickS
 }
